@@ -265,6 +265,11 @@ pub fn run_script(input: &Value) -> Case {
     let closing = has(b"\x1b[?1003l") && has(b"\x1b[?1006l") && has(b"\x1b[?1000l") && has(b"\x1b[?25h") && has(b"\x1b[c");
     let _ = pending_out;
     tags.push(format!("end={}", end));
+    // a session that ran into a wait it was not scripted to have (an infinite poll saved by the watchdog, a drop
+    // that sat out dispose's one-second polls with the peer reading)
+    if obs_coq.iter().any(|o| o == "OH") || (end == "drop" && drop_ms > 900) {
+        tags.push("unexpected_wait".into());
+    }
     tags.push(format!("polls={}", match npolls { 0 => "0", 1..=3 => "1-3", 4..=8 => "4-8", _ => ">8" }));
     for k in &kinds {
         tags.push(format!("has.{}", k));
@@ -493,7 +498,52 @@ pub fn batch(inputs: &[Value]) -> Batch {
         case_type: "c17_case",
         report_fn: "c17_report",
         rule: "scripted session with >=2 polls and >=3 kinds of actions (wake / input / signals / output / pause / poll), or a multi-thread wake stress run; distinct by input",
-        cases: inputs.iter().map(run).collect(),
+        cases: run_all(inputs),
         preamble: String::new(),
     }
+}
+
+/// Every session is bounded: a process-wide watchdog ends the harness (exit code 97, the session in flight is in
+/// current_case.json and becomes the failing input) when one session takes more than 12 s, and after 6 sessions
+/// with unexpected waits the remaining ones are not run (the ones seen are reported), so that a broken tree is
+/// reported within a few minutes.
+fn run_all(inputs: &[Value]) -> Vec<Case> {
+    use std::sync::atomic::{AtomicU64, Ordering};
+    use std::sync::Arc;
+    let dir = std::env::var("SNT_HARNESS_OUT").ok();
+    let started = Arc::new(AtomicU64::new(0)); // ms since t0 at which the current session started; 0 = none
+    let t0 = Instant::now();
+    {
+        let started = started.clone();
+        std::thread::spawn(move || loop {
+            std::thread::sleep(Duration::from_millis(200));
+            let s = started.load(Ordering::SeqCst);
+            if s != 0 && t0.elapsed().as_millis() as u64 > s + 12_000 {
+                eprintln!("c17: a pty session did not finish within 12 s");
+                std::process::exit(97);
+            }
+        });
+    }
+    let mut cases = vec![];
+    let mut waits = 0;
+    for i in inputs {
+        if let Some(d) = &dir {
+            let _ = std::fs::write(format!("{}/current_case.json", d), i.to_string());
+        }
+        started.store(t0.elapsed().as_millis() as u64 + 1, Ordering::SeqCst);
+        let c = run(i);
+        started.store(0, Ordering::SeqCst);
+        if c.tags.iter().any(|t| t == "unexpected_wait") {
+            waits += 1;
+        }
+        cases.push(c);
+        if waits >= 6 {
+            eprintln!("c17: {} sessions ran into unexpected waits, the remaining {} are not run", waits, inputs.len() - cases.len());
+            break;
+        }
+    }
+    if let Some(d) = &dir {
+        let _ = std::fs::remove_file(format!("{}/current_case.json", d));
+    }
+    cases
 }
